@@ -210,3 +210,29 @@ Theorem C03_verified_oracle_returns_the_minimum :
   end.
 Proof. exact min_fd_correct. Qed.
 Print Assumptions C03_verified_oracle_returns_the_minimum.
+
+(* ---- audit addition (agent-c19): (10') C03_decomposition_has_at_least_width_many_paths had no instance of `incompatible_in` together
+   with a decomposition.  On the diamond of EndToEndExample.v (flows 2 / 3, source 0, sink 5): the instance MinFlowDecomp solves for
+   k = 2, the two paths with weights 2 and 3, and the antichain of size 2 that C09_dilworth_diamond_width_is_two provides meet every
+   premise; the bound 2 <= k is attained *)
+Example C03_width_bound_premises_satisfiable :
+  let I := e2e_inst xV xE 0%N 5%N xf 2 in
+  let P := fun i : N => if (i =? 0)%N then [0; 1; 2; 4; 5]%N else [0; 1; 3; 4; 5]%N in
+  let w := fun i : N => if (i =? 0)%N then 2%Q else 3%Q in
+  decomposition I P w /\
+  exists A', NoDup A' /\ incompatible_in (g_edges (p_graph (f_base I))) A' /\
+    (forall e, In e A' -> In e (g_edges (p_graph (f_base I))) /\ mem_edge e (f_ignore I) = false /\ (0 < lookup_q e (f_flow I) 0)%Q) /\
+    length A' = p_k (f_base I).
+Proof.
+  cbn zeta. split.
+  - split; [|split].
+    + intros i Hi. cbn in Hi. destruct Hi as [<-|[<-|[]]]; (split; [reflexivity|]; split; [reflexivity|]; split;
+        [repeat constructor; cbn; intuition discriminate|intros e He; vm_compute in He; vm_compute; tauto]).
+    + intros i Hi. cbn in Hi. destruct Hi as [<-|[<-|[]]]; (split; [vm_compute; split; discriminate|]); intros _; [exists 2%Z|exists 3%Z]; reflexivity.
+    + intros e He Hig. vm_compute in He.
+      repeat (destruct He as [<-|He]; [first [vm_compute; reflexivity | vm_compute in Hig; discriminate Hig]|]). destruct He.
+  - destruct Dilworth.diamond_width_two as (_ & A' & ND & Hincl & Hinc & Hlen). exists A'.
+    split; [exact ND|]. split; [exact Hinc|]. split; [|exact Hlen].
+    intros e He. apply Hincl in He. cbn in He. destruct He as [<-|[<-|[<-|[<-|[]]]]]; (split; [vm_compute; tauto|split; vm_compute; reflexivity]).
+Qed.
+Print Assumptions C03_width_bound_premises_satisfiable.
